@@ -158,3 +158,57 @@ package randomness
 //@   loop 1
 //@     invariant 0 <= i && i <= n-d
 //@     invariant Ad == cntdiff(bits, d, i)
+
+// ---------------------------------------------------------------------------------------------
+// overlapping.go
+// After processing index i the low m bits of tmp are the cyclic window starting at i-m+1; the three
+// histograms count windows of width m, m-1, m-2 starting at s, s+1, s+2 (s = 0 .. n-1).
+
+//@ func OverlappingTemplateMatchingProto
+//@   cases m in {2, 3, 5, 7}
+//@   requires len(bits) >= 5 && len(bits) >= m
+//@   modifies nothing
+//@   pure
+//@   wraps tmp
+//@   loop 1
+//@     invariant m-1 <= i && i <= n+m-1
+//@     invariant emod(tmp, pow2(m-1)) == cpat(bits, n, i-(m-1), m-1)
+//@     invariant forall v int :: 0 <= v && v < pow2(m) ==> patterns1[v] == ccnt(bits, n, m, v, 0, i-(m-1))
+//@     invariant forall v int :: 0 <= v && v < pow2(m-1) ==> patterns2[v] == ccnt(bits, n, m-1, v, 1, i-(m-1)+1)
+//@     invariant forall v int :: 0 <= v && v < pow2(m-2) ==> patterns3[v] == ccnt(bits, n, m-2, v, 2, i-(m-1)+2)
+//@   loop 2
+//@     invariant 0 <= i && i <= mask1+1
+//@     invariant Phi1 == csqsum(bits, n, m, 0, i)
+//@   loop 3
+//@     invariant 0 <= i && i <= mask2+1
+//@     invariant Phi2 == csqsum(bits, n, m-1, 1, i)
+//@   loop 4
+//@     invariant 0 <= i && i <= mask3+1
+//@     invariant Phi3 == csqsum(bits, n, m-2, 2, i)
+//@   assert end loop 1: emod(tmp, pow2(m)) == cpat(bits, n, i-(m-1), m)
+//@   assert end loop 1: emod(tmp, pow2(m-1)) == cpat(bits, n, i-(m-1)+1, m-1)
+//@   assert end loop 1: emod(tmp, pow2(m-2)) == cpat(bits, n, i-(m-1)+2, m-2)
+//@   use before return: csqsum_rot(bits, n, m-1, 0, pow2(m-1))
+//@   use before return: csqsum_rot(bits, n, m-2, 0, pow2(m-2))
+//@   use before return: csqsum_rot(bits, n, m-2, 1, pow2(m-2))
+
+// ---------------------------------------------------------------------------------------------
+// approximate_entropy.go
+// The two-iteration outer loop (blockSize = m, m+1) and the blockSize-iteration window loop are unrolled
+// (their bounds are literals under the cases clause).
+
+//@ func ApproximateEntropyProto
+//@   cases m in {2, 5, 7}
+//@   requires len(bits) >= 1
+//@   modifies nothing
+//@   pure
+//@   loop 1
+//@     unroll
+//@   loop 2
+//@     invariant 0 <= i && i <= n
+//@     invariant forall v int :: 0 <= v && v < powLen ==> pattern[v] == ccnt(bits, n, blockSize, v, 0, i)
+//@   loop 3
+//@     unroll
+//@   loop 4
+//@     invariant 0 <= i && i <= powLen
+//@     invariant sum == apsum(bits, n, blockSize, i)
